@@ -40,7 +40,7 @@ def run(ctx):
             if i < 3:
                 ctx.sample({"program": prog})
         # spec -> code: sessions TLC explores on the model's universe; the value built is the one the specification parsed
-        uprogs, ukw, sessions, _ = speccode.explore(ctx, focus="all", part=speccode.part_of(ctx, 8 if quick else 16))
+        uprogs, ukw, sessions, _ = speccode.explore(ctx, focus="all", part=speccode.part_of(ctx, 16 if quick else 16))
         def on(camp, prog, con, s, idx):
             if idx["build"] and idx["reparse"]:
                 camp.sh.session(CLAUSE, [idx["build"], idx["reparse"]])
